@@ -46,7 +46,7 @@ def _operator_used(f):
         if isinstance(n, ast.BinOp) and {unparse(n.left), unparse(n.right)} == {"x", "y"}:
             return {ast.Add: "+", ast.Mult: "*", ast.Sub: "-"}.get(type(n.op))
     for n in ast.walk(f):
-        if isinstance(n, ast.Compare) and unparse(n.left) == "x" and unparse(n.comparators[0]) == "y":
+        if isinstance(n, ast.Compare) and eqv(n.left, "x") and eqv(n.comparators[0], "y"):
             return {ast.Lt: "<", ast.Gt: ">", ast.LtE: "<=", ast.GtE: ">="}.get(type(n.ops[0]))
     return None
 
@@ -119,7 +119,7 @@ def check(ctx):
     if tl is None:
         raise AnchorMissing("TakeLast.operation")
     ff = find("a = a.ffill()", tl)
-    ok = len(ff) == 1 and any(unparse(e) == "skipna" and pol for e, pol in cfg_of(tl).facts(ff[0][0])) and any(unparse(r.value) == "a.tail(n=1).squeeze()" for r in returns(tl))
+    ok = len(ff) == 1 and any(eqv(e, "skipna") and pol for e, pol in cfg_of(tl).facts(ff[0][0])) and any(eqv(r.value, "a.tail(n=1).squeeze()") for r in returns(tl))
     ctx.ob("ALG.scan-carry.last-valid", tl, "skipna: a = a.ffill() then the last row -- per column the last non-missing value", ok, "" if ok else "the carried row is not forward-filled per column: a column that is NaN in the last row loses its running total in every later partition")
     # ---------------- centered rolling windows: rows taken from the previous / next partition
     rr = ctx.model.klass("dask/dataframe/dask_expr/_rolling.py", "RollingReduction").own_methods["_lower"]
